@@ -18,7 +18,8 @@ import OV.Model.C01Graph
   * `_translate_function_signature_common`, `translate_function_def` → `convert`
 
   Set-valued choices (`live_defs`, `loop_state_vars`) are taken in sorted order, as the code
-  does since the `sorted(...)` fix.  Nested function definitions (`@graph()`) are not in the
+  does since the `sorted(...)` fix.  The model follows /repo including the fixes 4304e8f (liveness),
+  87ad64d (parallel assignment), 3b56caa (returned input), cbb81e7 (duplicate subgraph outputs).  Nested function definitions (`@graph()`) are not in the
   model.
 -/
 namespace OV.C01
@@ -360,20 +361,21 @@ end
 /-! ## Statements -/
 
 /-- The output loop of `_translate_block`: for every live definition either the value bound in
-the branch's own scope (copied when it was not assigned by a node of this graph) or a copy of
-the outer value; a name bound nowhere is refused. -/
-def blockOutputs (L : Locals) : List Name → List Node → M (List Name × List Node)
-  | [], _ => pure ([], [])
-  | pv :: rest, nodesSoFar =>
+the branch's own scope (copied when it was not assigned by a node of this graph, or when it is
+already listed as an output of this graph) or a copy of the outer value; a name bound nowhere is
+refused.  `outsSoFar` = `self._current_fn.outputs`. -/
+def blockOutputs (L : Locals) : List Name → List Node → List Name → M (List Name × List Node)
+  | [], _, _ => pure ([], [])
+  | pv :: rest, nodesSoFar, outsSoFar =>
     match currentScopeFind L pv with
     | some b => do
       let (o, ns1) ← toOnnxVar b pv
-      if (topDefs (nodesSoFar ++ ns1)).contains o then do
-        let (os, ns2) ← blockOutputs L rest (nodesSoFar ++ ns1)
+      if (topDefs (nodesSoFar ++ ns1)).contains o && !outsSoFar.contains o then do
+        let (os, ns2) ← blockOutputs L rest (nodesSoFar ++ ns1) (outsSoFar ++ [o])
         pure (o :: os, ns1 ++ ns2)
       else do
         let (o', nc) ← emitCopy o pv
-        let (os, ns2) ← blockOutputs L rest (nodesSoFar ++ (ns1 ++ nc))
+        let (os, ns2) ← blockOutputs L rest (nodesSoFar ++ (ns1 ++ nc)) (outsSoFar ++ [o'])
         pure (o' :: os, ns1 ++ (nc ++ ns2))
     | none =>
       match lookup L pv with
@@ -381,20 +383,20 @@ def blockOutputs (L : Locals) : List Name → List Node → M (List Name × List
       | some b => do
         let (o, ns1) ← toOnnxVar b pv
         let (o', nc) ← emitCopy o pv
-        let (os, ns2) ← blockOutputs L rest (nodesSoFar ++ (ns1 ++ nc))
+        let (os, ns2) ← blockOutputs L rest (nodesSoFar ++ (ns1 ++ nc)) (outsSoFar ++ [o'])
         pure (o' :: os, ns1 ++ (nc ++ ns2))
 
-/-- The state-variable output loop at the end of a loop body. -/
-def loopOutputs (L : Locals) : List Name → List Node → M (List Name × List Node)
-  | [], _ => pure ([], [])
-  | pv :: rest, nodesSoFar => do
+/-- The state-variable output loop at the end of a loop body (`outsSoFar` starts as `[cond_out]`). -/
+def loopOutputs (L : Locals) : List Name → List Node → List Name → M (List Name × List Node)
+  | [], _, _ => pure ([], [])
+  | pv :: rest, nodesSoFar, outsSoFar => do
     let (o, ns1) ← pyVar L pv
-    if (topDefs (nodesSoFar ++ ns1)).contains o then do
-      let (os, ns2) ← loopOutputs L rest (nodesSoFar ++ ns1)
+    if (topDefs (nodesSoFar ++ ns1)).contains o && !outsSoFar.contains o then do
+      let (os, ns2) ← loopOutputs L rest (nodesSoFar ++ ns1) (outsSoFar ++ [o])
       pure (o :: os, ns1 ++ ns2)
     else do
       let (o', nc) ← emitCopy o pv
-      let (os, ns2) ← loopOutputs L rest (nodesSoFar ++ (ns1 ++ nc))
+      let (os, ns2) ← loopOutputs L rest (nodesSoFar ++ (ns1 ++ nc)) (outsSoFar ++ [o'])
       pure (o' :: os, ns1 ++ (nc ++ ns2))
 
 /-- `[self._py_var_to_onnx_var(pv) for pv in loop_state_vars]` in the enclosing scope. -/
@@ -413,13 +415,19 @@ def loopParams (L : Locals) : List Name → M (Locals × List Name)
     let (L', ps) ← loopParams (bindVar L pv (.val p)) rest
     pure (L', p :: ps)
 
-/-- `x, y = e1, e2`: the pairs are assigned one after the other (`for p, r in zip(...): assign(p, r)`). -/
-def convPar (L : Locals) : List Name → List Expr → M (Locals × List Node)
+/-- Right-hand sides of `x, y = e1, e2`, each translated with its target as preferred name, all in the
+scope *before* the assignment (`translated = [self._translate_expr(r, p.id) for p, r in zip(...)]`). -/
+def convParExprs (L : Locals) : List Name → List Expr → M (List Name × List Node)
   | x :: xs, e :: es => do
     let (t, ns1) ← convExpr L e (some x)
-    let (L2, ns2) ← convPar (bindVar L x (.val t)) xs es
-    pure (L2, ns1 ++ ns2)
-  | _, _ => pure (L, [])
+    let (ts, ns2) ← convParExprs L xs es
+    pure (t :: ts, ns1 ++ ns2)
+  | _, _ => pure ([], [])
+
+/-- `x, y = e1, e2`: all right-hand sides are translated first, then the targets are bound. -/
+def convPar (L : Locals) (xs : List Name) (es : List Expr) : M (Locals × List Node) := do
+  let (ts, ns) ← convParExprs L xs es
+  pure (bindVals L xs ts, ns)
 
 /-- `loop_state_vars = sorted(vars_def_in_loop ∩ (exposed_uses ∪ live_out))`. -/
 def loopState (body : List Stmt) (lo : VSet) : Option VSet :=
@@ -461,7 +469,7 @@ def loopFinish (L L2 : Locals) (state : List Name) (bound cond : Option Name)
   | some onnxCond => do
     let condOut ← genUnique "cond_out"
     let cnode : Node := condNode brkCond onnxCond condOut
-    let (os, ns3) ← loopOutputs L2 state (bn ++ [cnode])
+    let (os, ns3) ← loopOutputs L2 state (bn ++ [cnode]) [condOut]
     let (inits, ns4) ← loopInits L state
     let outs ← genUniques state
     pure (bindVals L state outs,
@@ -495,9 +503,9 @@ def convStmt (L : Locals) : Stmt → VSet → M (Locals × List Node)
       let (test, ns0) ← convExpr L c (some "cond")
       -- `_translate_block(stmt.body, …, live_defs)`
       let (Lt, tn) ← convStmts ([] :: L) t lo
-      let (to, tn2) ← blockOutputs Lt liveDefs tn
+      let (to, tn2) ← blockOutputs Lt liveDefs tn []
       let (Le, en) ← convStmts ([] :: L) e lo
-      let (eo, en2) ← blockOutputs Le liveDefs en
+      let (eo, en2) ← blockOutputs Le liveDefs en []
       let renamed ← genUniques liveDefs
       if renamed.isEmpty then failM .translation
       else if renamed == [test] then failM .translation
@@ -512,7 +520,7 @@ def convStmt (L : Locals) : Stmt → VSet → M (Locals × List Node)
         let (ob, ns0) ← convExpr L bound (some "loop_bound")
         let condIn ← genUnique "cond_in"
         let (L1, iv, ps) ← loopEnter L i state
-        let (L2, bn, bc) ← convLoopBody L1 body (liveInStmt (.for_ i okIter bound body) lo)
+        let (L2, bn, bc) ← convLoopBody L1 body (loopBodyLo (.for_ i okIter bound body) lo)
         let (L', nl) ← loopFinish L L2 state (some ob) none condIn iv ps none bn bc
         pure (L', ns0 ++ nl)
   | .while_ c body, lo =>
@@ -524,7 +532,7 @@ def convStmt (L : Locals) : Stmt → VSet → M (Locals × List Node)
         let condIn ← genUnique t
         let (oc, ns0) ← pyVar L t
         let (L1, iv, ps) ← loopEnter L "infinite_loop" state
-        let (L2, bn, bc) ← convLoopBody L1 body (liveInStmt (.while_ c body) lo)
+        let (L2, bn, bc) ← convLoopBody L1 body (loopBodyLo (.while_ c body) lo)
         let (L', nl) ← loopFinish L L2 state none (some oc) condIn iv ps (some t) bn bc
         pure (L', ns0 ++ nl)
     | _ => failM .translation
@@ -563,18 +571,14 @@ end
 /-- `str(ir.Value)` of an untyped value, as used (by accident) in `f"{return_var}_copy"`. -/
 def valueRepr (n : Name) : String := "%\"" ++ n ++ "\"<?,?>"
 
-/-- `val = self._lookup(return_var.name, …); val.value.is_graph_input()`: the ONNX name of the returned
-value is looked up as a *Python* name, and the value bound to that Python name is tested. -/
-def returnsInput (L : Locals) (inputs : List Name) (rv : Name) : Bool :=
-  match lookup L rv with
-  | some (.val n') => inputs.contains n'
-  | _ => false
+/-- `return_var.is_graph_input()`: the returned value itself is a function input. -/
+def returnsInput (inputs : List Name) (rv : Name) : Bool := inputs.contains rv
 
 /-- One returned expression of `_translate_return_stmt` (`ret(exp, i, suffix)`). -/
 def convRetOne (L : Locals) (inputs : List Name) (e : Expr) (preferred : Name)
     (outs : List Name) : M (Name × List Node) := do
   let (rv, ns1) ← convExpr L e (some preferred)
-  let (rv2, ns2) ← (if returnsInput L inputs rv then emitCopy rv preferred else pure (rv, []) : M (Name × List Node))
+  let (rv2, ns2) ← (if returnsInput inputs rv then emitCopy rv preferred else pure (rv, []) : M (Name × List Node))
   if outs.contains rv2 then do
     let (rv3, ns3) ← emitCopy rv2 (valueRepr rv2 ++ "_copy")
     pure (rv3, ns1 ++ (ns2 ++ ns3))
